@@ -1,8 +1,13 @@
 """C15 - the screen shows the actual state (spec/FzfScreen.tla, spec/Judge_Screen.tla).
 
-MC: FzfScreen's placement and row claims on small constants.  J: real fzf (-tags verif) in a tmux pane is driven
-through editor behaviours (C09's stimuli: action chains, real keys) plus resizes; at every settle point the screen
-is captured (tmux capture-pane) next to the state the hooks logged, and TLC decides rows = Render(state, geometry, cfg).
+MC: FzfScreen's placement and row claims on small constants (incl. shown / hidden header and input sections, the part
+of a too long line that is displayed, scrollbar, border).  E: cases exported by TLC (geometry x configuration x state
+incl. section visibility; long lines x pattern position x hscroll options) are brought about on the real fzf in a tmux
+pane, one after the other in one session, and the captured screen must equal the predicted rows.  J: real fzf
+(-tags verif) in a tmux pane is driven through editor behaviours (C09's stimuli: action chains, real keys) plus
+resizes, show / hide / toggle of the header and input sections, and - in sessions over long lines - queries that match
+at the start, in the middle and at the very end of the lines; at every settle point the screen is captured (tmux
+capture-pane) next to the state the hooks logged, and TLC decides rows = Render(state, geometry, cfg).
 Python only drives, waits for the trace to settle, and splits strings into cells.
 """
 import json, time, unicodedata, threading
@@ -48,11 +53,13 @@ def width_table(texts):
 class SCfg:
     """A session configuration: fzf arguments and the configuration record of FzfScreen."""
     FIELDS = ("layout", "info", "sep", "header", "nhl", "header_first", "inputless", "prompt", "pointer", "marker",
-              "ellipsis", "multi", "cycle", "scroll_off", "disabled")
+              "ellipsis", "multi", "cycle", "scroll_off", "disabled", "hscroll", "hscroll_off", "keep_right", "scrollbar",
+              "border", "nosort")
+    DEFAULTS = {"hscroll": False, "hscroll_off": None, "keep_right": False, "scrollbar": False, "border": False, "nosort": False}
 
     def __init__(self, **kw):
         for f in self.FIELDS:
-            setattr(self, f, kw[f])
+            setattr(self, f, kw[f] if f in kw else self.DEFAULTS[f])
 
     def to_json(self):
         return {f: getattr(self, f) for f in self.FIELDS}
@@ -77,6 +84,19 @@ class SCfg:
             extra.append("--marker=" + self.marker)
         if self.ellipsis is not None:
             extra.append("--ellipsis=" + self.ellipsis)
+        # (the base arguments say --no-hscroll --no-scrollbar; a later option wins)
+        if self.hscroll:
+            extra.append("--hscroll")
+        if self.hscroll_off is not None:
+            extra.append("--hscroll-off=%d" % self.hscroll_off)
+        if self.keep_right:
+            extra.append("--keep-right")
+        if self.scrollbar:
+            extra.append("--scrollbar=|")
+        if self.border:
+            extra.append("--border")
+        if self.nosort:
+            extra.append("--no-sort")
         return sessions.Cfg(layout=self.layout, cycle=self.cycle, multi=self.multi, scroll_off=self.scroll_off,
                             inputless=self.inputless, disabled=self.disabled, extra=extra)
 
@@ -93,7 +113,14 @@ class SCfg:
                 "prompt": cells("> " if self.prompt is None else self.prompt),
                 "pointer": cells(">" if self.pointer is None else self.pointer),
                 "marker": cells(">" if self.marker is None else self.marker),
-                "ellipsis": cells(".." if self.ellipsis is None else self.ellipsis)}
+                "ellipsis": cells(".." if self.ellipsis is None else self.ellipsis),
+                "hscroll": self.hscroll, "hscrollOff": 10 if self.hscroll_off is None else self.hscroll_off,
+                "keepRight": self.keep_right, "scrollbar": ["|"] if self.scrollbar else [], "border": self.border}
+
+    def area(self, w, h):
+        """Size of the finder's area in a w x h terminal as the hooks log it (--border: a box with one blank column on
+        either side; the list window itself gets the right one back, see FzfScreen.Inner)."""
+        return (w - 4, h - 2) if self.border else (w, h)
 
 
 def make_cfg(rng):
@@ -106,10 +133,28 @@ def make_cfg(rng):
                 cycle=rng.random() < 0.5, scroll_off=rng.choice([None, 0, 1, 5]), disabled=rng.random() < 0.4)
 
 
-def make_steps(rng, n, multi, w, h):
-    """C09's stimuli (action chains, real keys, typed characters) interleaved with resizes and long queries."""
+VIS_ACTS = ("toggle-header", "show-header", "hide-header", "toggle-input", "show-input", "hide-input")
+
+
+def vis_step(rng):
+    """Shows / hides a section: alone, or glued to another action so that one redraw has to cope with both."""
+    a = rng.choice(VIS_ACTS + ("toggle-header", "toggle-input"))
+    r = rng.random()
+    if r < 0.6:
+        return ("post", a)
+    if r < 0.8:
+        return ("post", a + "+" + rng.choice(["down", "up", "last", "first", "toggle", "put(a)", "backward-delete-char", "toggle-header",
+                                               "toggle-input"]))
+    return ("post", rng.choice(["down", "up", "pos(3)", "toggle+down", "clear-query"]) + "+" + a)
+
+
+def make_steps(rng, n, multi, w, h, vis=0.09):
+    """C09's stimuli (action chains, real keys, typed characters) interleaved with resizes, long queries and
+    show / hide / toggle of the header and input sections."""
     steps = []
     for st in c09.random_steps(rng, n, multi):
+        if rng.random() < vis:
+            steps.append(vis_step(rng))
         r = rng.random()
         if r < 0.10:
             w2, h2 = w, h
@@ -133,9 +178,44 @@ def view(e):
     return [e.get(k) for k in VIEW]
 
 
-def settle(s, slow):
-    """Waits until the trace is quiet, no redraw is pending and two captures taken `gap` apart are identical with no
-    trace growth in between.  Returns (trace prefix, screen rows)."""
+def norm_query(q):
+    """The pattern text BuildPattern makes of a query (only used to decide whether a search is still on its way)."""
+    q = q.lstrip(" ")
+    while q.endswith(" ") and not q.endswith("\\ "):
+        q = q[:-1]
+    return q
+
+
+def list_pattern(tr):
+    """Pattern text of the matcher result the terminal's list was taken from: the last match.publish before the last
+    term.list ('' when that result was not filtered at all); None when the trace has neither."""
+    li = None
+    for i in range(len(tr) - 1, -1, -1):
+        if tr[i]["ev"] == "term.list":
+            li = i
+            break
+    if li is None:
+        return None
+    if "pass" not in tr[li]:
+        raise Infra("the trace hooks of this tree do not log the merger's pass flag")
+    if tr[li]["pass"]:
+        return ""
+    for i in range(li - 1, -1, -1):
+        if tr[i]["ev"] == "match.publish":
+            return tr[i]["q"]
+    return None
+
+
+def search_pending(tr, last):
+    """The displayed list does not belong to the current query yet (search enabled)."""
+    if last.get("paused"):
+        return False
+    return list_pattern(tr) != norm_query(last["input"])
+
+
+def settle(s, slow, scfg=None):
+    """Waits until the trace is quiet, no redraw is pending, the list belongs to the current query and two captures
+    taken `gap` apart are identical with no trace growth in between.  Returns (trace prefix, screen rows)."""
     gap = 0.4 if slow else 0.03
     patience = 15.0 if slow else 3.0            # for a redraw that has been requested but not yet flushed
     t0 = time.time()
@@ -155,10 +235,11 @@ def settle(s, slow):
             continue
         if "lines" not in flushes[-1] or "xoffset" not in flushes[-1]:
             raise Infra("the trace hooks of this tree do not log cols/lines/xoffset")
-        if (flushes[-1]["cols"], flushes[-1]["lines"]) != pane_size(s):
+        pw, ph = pane_size(s)
+        if (flushes[-1]["cols"], flushes[-1]["lines"]) != (scfg.area(pw, ph) if scfg else (pw, ph)):
             time.sleep(0.005)       # fzf has not laid itself out for the current pane size yet (resize in flight)
             continue
-        if view(term[-1]) != view(flushes[-1]):
+        if view(term[-1]) != view(flushes[-1]) or search_pending(tr, term[-1]):
             # the state changed after the last flush: a redraw should be on its way
             tp = tp or time.time()
             if time.time() - tp < patience:
@@ -177,23 +258,29 @@ def pane_size(s):
 
 
 def snapshot(s, scfg, items, step, sid, slow, stats):
-    tr, rows = settle(s, slow)
+    tr, rows = settle(s, slow, scfg)
     if tr is None:
         return None
     term = [e for e in tr if e["ev"].startswith("term.") and "cy" in e]
     last = term[-1]
     w, h = pane_size(s)
     lists = [e for e in term if e["ev"] == "term.list"]
-    if not lists or "ids" not in lists[-1] or last["reading"] or last["n"] != len(lists[-1]["ids"]):
+    pattern = list_pattern(tr)
+    if (not lists or "ids" not in lists[-1] or last["reading"] or last["n"] != len(lists[-1]["ids"]) or pattern is None
+            or search_pending(tr, last)):
         stats["skipped"] = stats.get("skipped", 0) + 1
         return None
     ids, texts = lists[-1]["ids"], lists[-1].get("texts") or []
     rows = [r.rstrip(" ") for r in rows]
     wide, zero = width_table(items + rows + [last["input"]] + ([scfg.header] if scfg.header else []))
+    # the show / hide / toggle actions as the program logged them; the flags are the specification's business (VisAfter)
+    vis = [e["act"] for e in tr if e["ev"] == "term.act" and e["act"] in VIS_ACTS]
     return {"sid": sid, "step": step, "seq": last["seq"], "w": w, "h": h, "wide": wide, "zero": zero, "cfg": scfg.spec(items),
             "st": {"input": cells(last["input"]), "cx": last["cx"], "xoffset": last["xoffset"], "list": ids, "texts": [cells(t) for t in texts],
-                   "sel": last["sel"], "multi": last["multi"], "cy": last["cy"], "offset": last["offset"], "count": last["count"], "track": last["track"]},
-            "maxItems": last["maxItems"], "orig": [cells(items[i + scfg.nhl]) if 0 <= i + scfg.nhl < len(items) else None for i in ids],
+                   "sel": last["sel"], "multi": last["multi"], "cy": last["cy"], "offset": last["offset"], "count": last["count"], "track": last["track"],
+                   "pattern": cells(pattern)},
+            "vis": vis, "hmissing": max(0, scfg.nhl - len(items)), "filtered": not lists[-1]["pass"], "maxItems": last["maxItems"],
+            "orig": [cells(items[i + scfg.nhl]) if 0 <= i + scfg.nhl < len(items) else None for i in ids],
             "rows": [cells(r) for r in rows]}
 
 
@@ -262,7 +349,7 @@ def run_session(ctx, fzf, sid, scfg, items, steps, width, height, slow=False, st
 
 # ------------------------------------------------------------------------------------------------ E: spec -> code
 def e_groups(cases):
-    """Cases exported by TLC (Gen_Screen.cfg) grouped into sessions: one per (configuration, item list)."""
+    """Cases exported by TLC (Gen_Screen*.cfg) grouped into sessions: one per (configuration, item list)."""
     groups = {}
     for c in cases:
         groups.setdefault(json.dumps([c["cfg"], c["items"]], sort_keys=True), []).append(c)
@@ -272,33 +359,43 @@ def e_groups(cases):
     return out
 
 
-def e_cfg(c):
+def e_cfg(c, searching):
+    """searching: the search is enabled (--no-sort: the list is the input as long as every line matches)."""
     return SCfg(layout=c["layout"], info=c["info"], sep=c["sep"], header="\n".join("".join(x) for x in c["header"]) if c["header"] else None,
                 nhl=len(c["hlines"]), header_first=c["headerFirst"], inputless=c["inputless"], prompt=None, pointer=None, marker=None,
-                ellipsis=None, multi="inf", cycle=False, scroll_off=0, disabled=True)
+                ellipsis="".join(c["ellipsis"]), multi="inf", cycle=False, scroll_off=0, disabled=not searching, nosort=searching,
+                hscroll=c["hscroll"], hscroll_off=c["hscrollOff"], keep_right=c["keepRight"], scrollbar=bool(c["scrollbar"]),
+                border=c["border"])
 
 
 def e_actions(st):
-    """Action list that puts the finder into the exported state (list = all items, search disabled)."""
-    acts = ["deselect-all", "change-multi" if st["multi"] == 2147483647 else "change-multi(%d)" % st["multi"],
-            "change-query(%s)" % "".join(st["input"]) if st["input"] else "clear-query"]
+    """Two action lists that put the finder into the exported state (the list is the input).
+    (1) The input section is shown first (a hidden one discards every change of the query); once the query is set both
+    sections get the exported visibility: one POST = one redraw takes the screen from the previous case's layout to
+    this one's.  (2) Selection and cursor, after the first redraw: `pos` scrolls at once, by the size the list window
+    has at that moment, and the windows are only rebuilt when the screen is drawn."""
+    acts = ["show-input", "deselect-all", "change-multi" if st["multi"] == 2147483647 else "change-multi(%d)" % st["multi"],
+            "change-query(%s)" % "".join(st["input"]) if st["input"] else "clear-query", "pos(1)"]
+    acts += ["show-header" if st["showHeader"] else "hide-header"]
+    if st["hideInput"]:
+        acts += ["hide-input"]
+    acts2 = []
     for i in st["sel"]:
-        acts += ["pos(%d)" % (st["list"].index(i) + 1), "select"]
-    acts += ["pos(1)", "pos(%d)" % (st["cy"] + 1)]
-    return "+".join(acts)
+        acts2 += ["pos(%d)" % (st["list"].index(i) + 1), "select"]
+    acts2 += ["pos(1)", "pos(%d)" % (st["cy"] + 1)]
+    return "+".join(acts), "+".join(acts2)
 
 
 def e_expected(case):
     st = case["st"]
-    # --no-input: the query cannot be edited and is not displayed
-    return {"rows": case["rows"], "input": None if case["cfg"]["inputless"] else st["input"], "cy": st["cy"], "offset": st["offset"], "multi": st["multi"], "count": st["count"],
-            "sel": [st["list"].index(i) for i in st["sel"]], "n": len(st["list"])}
+    return {"rows": case["rows"], "input": st["input"], "cy": st["cy"], "offset": st["offset"], "multi": st["multi"], "count": st["count"],
+            "sel": [st["list"].index(i) for i in st["sel"]], "n": len(st["list"]), "pattern": st["pattern"], "maxItems": case["maxItems"]}
 
 
-def e_session(ctx, fzf, sid, group, slow=False):
-    """Runs one group of cases; returns [(case, got)] where got has the shape of e_expected."""
+def e_session(ctx, fzf, sid, group, searching, slow=False):
+    """Runs one group of cases; returns [(case, got, record)] where got has the shape of e_expected."""
     c0 = group[0]
-    scfg = e_cfg(c0["cfg"])
+    scfg = e_cfg(c0["cfg"], searching)
     items = ["".join(x) for x in c0["cfg"]["hlines"]] + ["".join(x) for x in c0["items"]]
     out = []
     s = start_session(ctx, fzf, scfg, items, c0["w"], c0["h"])
@@ -309,24 +406,27 @@ def e_session(ctx, fzf, sid, group, slow=False):
                 n_loop = s.count("term.loop")
                 s.post("pos(1)", timeout=60)
                 s.wait_count("term.loop", n_loop + 1, timeout=120)
-                settle(s, slow)
+                settle(s, slow, scfg)
                 n_flush = s.count("term.render", lambda e: e["what"] == "flush")
                 s.resize(case["w"], case["h"])
                 s.wait_for(lambda tr: sum(1 for e in tr if e["ev"] == "term.render" and e["what"] == "flush") > n_flush,
                            timeout=120, what="redraw after resize")
-            n_loop = s.count("term.loop")
-            st, _ = s.post(e_actions(case["st"]), timeout=60)
-            if st != 200:
-                raise Infra("POST -> %d" % st)
-            s.wait_count("term.loop", n_loop + 1, timeout=120)
+            for acts in e_actions(case["st"]):
+                n_loop = s.count("term.loop")
+                st, _ = s.post(acts, timeout=60)
+                if st != 200:
+                    raise Infra("POST -> %d" % st)
+                s.wait_count("term.loop", n_loop + 1, timeout=120)
+                if acts.startswith("show-input"):
+                    settle(s, slow, scfg)
             r = snapshot(s, scfg, items, 0, sid, slow, stats)
             if r is None:
                 raise Infra("E session %d: no settled screen" % sid)
             if (r["w"], r["h"]) != (case["w"], case["h"]):
                 raise Infra("E session %d: pane is %dx%d, wanted %dx%d" % (sid, r["w"], r["h"], case["w"], case["h"]))
-            out.append((case, {"rows": r["rows"], "input": None if case["cfg"]["inputless"] else r["st"]["input"], "cy": r["st"]["cy"], "offset": r["st"]["offset"],
+            out.append((case, {"rows": r["rows"], "input": r["st"]["input"], "cy": r["st"]["cy"], "offset": r["st"]["offset"],
                                "multi": r["st"]["multi"], "count": r["st"]["count"], "sel": sorted(r["st"]["sel"]),
-                               "n": len(r["st"]["list"])}, r))
+                               "n": len(r["st"]["list"]), "pattern": r["st"]["pattern"], "maxItems": r["maxItems"]}, r))
         s.post("abort", final=True)
         s.wait_exit(timeout=120)
         return out
@@ -334,70 +434,202 @@ def e_session(ctx, fzf, sid, group, slow=False):
         s.close()
 
 
-def run_e(ctx, fzf):
-    gen = ctx.tlc("MC_Screen", ctx.pick("Gen_Screen_q.cfg", "Gen_Screen.cfg"), workers=4, timeout=1200, label="gen")
+# the two families of exported cases: name -> (quick cfg, thorough cfg, search enabled, sessions (quick, thorough; None = one
+# per exported configuration), cases per session (quick, thorough), first session id, least number of cases, slices of the
+# configuration space in quick)
+E_FAMILIES = {
+    # geometry x configuration x state x visibility of the header / input sections (search disabled: list = input)
+    "layout": ("Gen_Screen_q.cfg", "Gen_Screen.cfg", False, (14, None), (16, 24), 1000, 1000, 4),
+    # lines too long for the window x pattern position x hscroll options x scrollbar x border (search enabled)
+    "hscroll": ("Gen_ScreenH_q.cfg", "Gen_ScreenH.cfg", True, (10, 180), (14, 20), 3000, 1000, 12),
+}
+
+
+def e_generate(ctx, name):
+    """TLC exports the cases; quick: one slice of the configurations (chosen by the seed), thorough: all of them."""
+    qcfg, tcfg, _, _, _, _, min_cases, qslices = E_FAMILIES[name]
+    slices = ctx.pick(qslices, 1)
+    gen = ctx.tlc("MC_Screen", ctx.pick(qcfg, tcfg), workers=ctx.pick(4, 12), timeout=3000, label="gen-" + name,
+                  env={"VERIF_SLICES": slices, "VERIF_SLICE": ctx.seed % slices})
     cases = gen.json_items("CASE")
-    if len(cases) < 1000:
-        raise Infra("TLC exported only %d cases" % len(cases))
+    if len(cases) < min_cases:
+        raise Infra("TLC exported only %d cases (%s)" % (len(cases), ctx.pick(qcfg, tcfg)))
+    return cases
+
+
+def e_plan(ctx, name, cases):
+    """The sessions to run: a seeded part of each configuration's cases; consecutive cases of a session differ in
+    geometry, state and visibility of the sections, so every case is drawn over what the previous one left behind."""
+    _, _, _, nsess, ncases, _, _, _ = E_FAMILIES[name]
     groups = e_groups(cases)
     ngroups = len(groups)
-    if ctx.quick:
-        groups = ctx.rng.sample(groups, 14)
-    # a seeded half of each configuration's cases (16 quick)
-    groups = [sorted(ctx.rng.sample(g, min(len(g), ctx.pick(16, 24))), key=lambda c: (c["w"], c["h"])) for g in groups]
+    if ctx.pick(*nsess) is not None:
+        groups = ctx.rng.sample(groups, min(ctx.pick(*nsess), len(groups)))
+    groups = [ctx.rng.sample(g, min(len(g), ctx.pick(*ncases))) for g in groups]
+    return [sorted(g, key=lambda c: (c["w"], c["h"])) for g in groups], ngroups
+
+
+def e_sessions(ctx, fzf, name, groups, workers=5):
+    searching, base_sid = E_FAMILIES[name][2], E_FAMILIES[name][5]
     results = {}
 
     def do(ix):
-        return ix, e_session(ctx, fzf, 1000 + ix, groups[ix])
-    with ThreadPoolExecutor(max_workers=6) as ex:
+        return ix, e_session(ctx, fzf, base_sid + ix, groups[ix], searching)
+    with ThreadPoolExecutor(max_workers=workers) as ex:
         for ix, res in ex.map(do, range(len(groups))):
             results[ix] = res
-    total = bad_groups = 0
-    seen_bad = []
+    return results
+
+
+def e_evaluate(ctx, fzf, name, cases, groups, ngroups, results):
+    searching, base_sid = E_FAMILIES[name][2], E_FAMILIES[name][5]
+    total = 0
+    first_bad = []                      # (group, record) of every mismatch of the first pass
     for ix in sorted(results):
-        bad = [(c, got) for c, got, _ in results[ix] if got != e_expected(c)]
         total += len(results[ix])
-        if bad:
-            seen_bad.append(ix)
-    for ix in seen_bad[:4]:
+        first_bad += [(ix, r) for c, got, r in results[ix] if got != e_expected(c)]
+    unknown, known_only = [], []
+    if first_bad:
+        # groups whose rejection is not a named deviation first, so that a known finding can never crowd out a new one
+        _, jres = judge(ctx, "Judge_Screen", "Judge_Screen.cfg", [r for _, r in first_bad], "screen-e-%s" % name, workers=4)
+        vd = verdicts(jres)
+        for ix in sorted({ix for ix, _ in first_bad}):
+            vs = [vd.get(i, "") for i, (jx, _) in enumerate(first_bad) if jx == ix]
+            (known_only if all(v.startswith("known ") for v in vs) else unknown).append(ix)
+    for ix in unknown[:4] + known_only[:1]:
         # reproduce: the same group again, settling slowly
-        res2 = e_session(ctx, fzf, 2000 + ix, groups[ix], slow=True)
+        res2 = e_session(ctx, fzf, base_sid + 500 + ix, groups[ix], searching, slow=True)
         bad2 = [(c, got, r) for c, got, r in res2 if got != e_expected(c)]
         if not bad2:
-            raise Infra("E group %d: mismatch not reproduced" % ix)
-        c, got, rec = bad2[0]
-        exp = e_expected(c)
-        if {k: got[k] for k in got if k != "rows"} != {k: exp[k] for k in exp if k != "rows"}:
-            raise Infra("E group %d: could not put fzf into the exported state: want %s got %s" % (
-                ix, json.dumps({k: exp[k] for k in exp if k != "rows"}), json.dumps({k: got[k] for k in got if k != "rows"})))
-        scfg = e_cfg(c["cfg"])
-        what = "%s, %dx%d, state %s: the specification predicts the screen\n%s\nbut the terminal shows\n%s" % (
-            scfg.describe(), c["w"], c["h"], json.dumps({k: exp[k] for k in exp if k != "rows"}),
-            "\n".join("".join(x) for x in exp["rows"]), "\n".join("".join(x) for x in got["rows"]))
-        # let the specification name the rejection (a named deviation or not)
-        _, jres = judge(ctx, "Judge_Screen", "Judge_Screen.cfg", [rec], "screen-e%d" % ix, workers=2)
-        v = verdicts(jres).get(0, "replay")
-        ctx.violation(what + "\n[%s]" % v, {"e_case": c, "got": got, "record": rec, "verdict": v, "kf": classify(rec, v)})
+            raise Infra("E group %s/%d: mismatch not reproduced" % (name, ix))
+        # let the specification name the rejections (a named deviation or not)
+        _, jres = judge(ctx, "Judge_Screen", "Judge_Screen.cfg", [r for _, _, r in bad2], "screen-e-%s%d" % (name, ix), workers=2)
+        vd2 = verdicts(jres)
+        reported = set()
+        for k, (c, got, rec) in enumerate(bad2):
+            v = vd2.get(k, "replay")
+            if v in reported:
+                continue
+            reported.add(v)
+            exp = e_expected(c)
+            if not v.startswith("known ") and {k2: got[k2] for k2 in got if k2 != "rows"} != {k2: exp[k2] for k2 in exp if k2 != "rows"}:
+                raise Infra("E group %s/%d (%s, %dx%d, header %s, input %s): could not put fzf into the exported state: want %s got %s [%s]; screen:\n%s" % (
+                    name, ix, e_cfg(c["cfg"], searching).describe(), c["w"], c["h"], "shown" if c["st"]["showHeader"] else "hidden",
+                    "hidden" if c["st"]["hideInput"] else "shown", json.dumps({k2: exp[k2] for k2 in exp if k2 != "rows"}),
+                    json.dumps({k2: got[k2] for k2 in got if k2 != "rows"}), v, "\n".join("".join(x) for x in got["rows"])))
+            scfg = e_cfg(c["cfg"], searching)
+            prev = [x for x, _, _ in res2]
+            before = prev[prev.index(c) - 1] if prev.index(c) > 0 else None
+            what = "%s, %dx%d, state %s%s: the specification predicts the screen\n%s\nbut the terminal shows\n%s" % (
+                scfg.describe(), c["w"], c["h"], json.dumps({k2: exp[k2] for k2 in exp if k2 != "rows"}),
+                " [header %s, input %s]" % ("shown" if c["st"]["showHeader"] else "hidden", "hidden" if c["st"]["hideInput"] else "shown"),
+                "\n".join("".join(x) for x in exp["rows"]), "\n".join("".join(x) for x in got["rows"]))
+            if before is not None:
+                what += "\n(previous case of the session: %dx%d, actions %s)" % (before["w"], before["h"], " ; ".join(e_actions(before["st"])))
+            ctx.violation(what + "\n[%s]" % v, {"e_case": c, "got": got, "record": rec, "verdict": v, "kf": classify(rec, v)})
     ctx.cov["traces_validated_against_impl"] += total
     ctx.cov["evaluations"] += total
-    ctx.cov["e_cases_exported"] = len(cases)
-    ctx.cov["e_cases_replayed"] = total
-    ctx.cov["e_sessions"] = len(groups)
-    ctx.cov["e_configurations"] = ngroups
+    ctx.cov["e_cases_exported"] = ctx.cov.get("e_cases_exported", 0) + len(cases)
+    ctx.cov["e_cases_replayed"] = ctx.cov.get("e_cases_replayed", 0) + total
+    ctx.cov["e_sessions"] = ctx.cov.get("e_sessions", 0) + len(groups)
+    ctx.cov["e_configurations"] = ctx.cov.get("e_configurations", 0) + ngroups
+    ctx.cov["e_" + name] = {"exported": len(cases), "configurations": ngroups, "sessions": len(groups), "replayed": total}
     return total
+
 
 # ------------------------------------------------------------------------------------------------ the check
 def make_jobs(ctx):
     rng = ctx.rng
     jobs = []
-    nsess = ctx.pick(30, 300)
+    nsess = ctx.pick(26, 300)
     for k in range(nsess):
         scfg = make_cfg(rng)
+        if k % 3 == 0 and scfg.header is None and not scfg.nhl:
+            scfg.header = rng.choice([h for h in HEADERS if h])      # a section to show and hide
         n = rng.choice([0, 1, 2, 3, 5, 9, 14, 25, 40, 60])
         pool = ASCII_POOL if k % 4 else ASCII_POOL + UNI_POOL * 3
         items = [rng.choice(pool) for _ in range(n)]
         w, h = rng.choice(SIZES_W), rng.choice(SIZES_H)
-        jobs.append((scfg, items, make_steps(rng, rng.randint(ctx.pick(10, 14), ctx.pick(22, 34)), scfg.multi, w, h), w, h))
+        jobs.append((scfg, items, make_steps(rng, rng.randint(ctx.pick(10, 14), ctx.pick(22, 34)), scfg.multi, w, h,
+                                             vis=0.2 if k % 3 == 0 else 0.06), w, h))
+    return jobs + make_hjobs(ctx)
+
+
+# ---- sessions over lines that are too long for the window: which part is displayed, and what it leaves behind
+FILLER = "abcdefghijklmnopqrstuvwxyz0123456789-_./ "
+H_WIDE = "\u6f22\u5b57\ud55c\uae00"
+
+
+def long_line(rng, n, marks, wide=False):
+    """n characters of lower-case filler with the upper-case markers put in once each: marks = (start, middle, END);
+    a marker that is None is left out (the line then does not match its query)."""
+    body = [rng.choice(FILLER) for _ in range(n)]
+    if body[0] == " ":
+        body[0] = "x"
+    if body[-1] == " ":
+        body[-1] = "x"
+    if wide:
+        for _ in range(max(2, n // 12)):
+            body[rng.randrange(n)] = rng.choice(H_WIDE)
+    st, mid, end = marks
+    if st:
+        p = rng.choice([0, 1, 3])
+        body[p:p + len(st)] = st
+    if mid:
+        p = n // 2 + rng.randint(-6, 6)
+        body[p:p + len(mid)] = mid
+    if end:
+        p = n - len(end) - rng.choice([0, 0, 0, 1, 2, 4])
+        body[p:p + len(end)] = end
+    return "".join(body[:n])
+
+
+def make_hjobs(ctx):
+    rng = ctx.rng
+    jobs = []
+    for k in range(ctx.pick(16, 160)):
+        letters = rng.sample("ABCDEFGHIJKLMNOPQRSTUVWXYZ", 8)
+        st, mid, end = "".join(letters[0:2]), "".join(letters[2:5]), "".join(letters[5:8])
+        border = rng.random() < 0.4
+        hscroll = rng.random() < 0.85
+        scfg = SCfg(layout=rng.choice(["default", "reverse", "reverse-list"]), info=rng.choice(["default", "default", "inline", "hidden", "right"]),
+                    sep=rng.random() < 0.7, header=rng.choice([None, None, "HEAD", long_line(rng, 75, ("HD", None, "TAIL"))]),
+                    nhl=rng.choice([0, 0, 0, 1]), header_first=rng.random() < 0.2, inputless=False,
+                    prompt=None, pointer=rng.choice([None, None, "=>"]), marker=None,
+                    ellipsis=rng.choice([None, None, "..", "\u2026", "", "~", "..."]), multi=rng.choice([None, 3, "inf"]), cycle=False,
+                    scroll_off=rng.choice([None, 0]), disabled=False, hscroll=hscroll, hscroll_off=rng.choice([None, None, 0, 5, 5, 40]),
+                    keep_right=rng.random() < 0.3, scrollbar=rng.random() < 0.5, border=border, nosort=rng.random() < 0.3)
+        n = rng.choice([3, 5, 8, 12, 20, 30])
+        items = []
+        for i in range(n):
+            r = rng.random()
+            length = rng.choice([60, 61, 75, 90, 120, 180, 240, 300]) if r < 0.8 else rng.choice([8, 19, 26, 40])
+            marks = (st if rng.random() < 0.9 else None, mid if rng.random() < 0.9 else None, end if rng.random() < 0.9 else None)
+            items.append(long_line(rng, max(length, 12), marks, wide=(k % 4 == 3 and rng.random() < 0.4)))
+        lw = rng.randint(20, 60)                       # width of the list window
+        w, h = lw + (3 if border else 0), rng.choice([6, 7, 8, 10, 12, 16]) + (2 if border else 0)
+        queries = [st, mid, end, end, end[1:], end[:2], st + " " + end, mid + " " + end, end + " " + st, st[0], mid.lower(), end.lower(),
+                   end + "QQ", ""]
+        steps = []
+        for _ in range(rng.randint(ctx.pick(9, 12), ctx.pick(14, 22))):
+            r = rng.random()
+            if r < 0.45:
+                steps.append(("post", "change-query(%s)" % rng.choice(queries) if rng.random() < 0.9 else "clear-query"))
+            elif r < 0.55:
+                steps.append(("post", rng.choice(["backward-delete-char", "put(%s)" % end[-1], "beginning-of-line+delete-char", "unix-line-discard+put(%s)" % end])))
+            elif r < 0.75:
+                steps.append(("post", rng.choice(["down", "up", "down+down+down", "last", "first", "page-down", "page-up", "toggle+down", "pos(4)",
+                                                  "toggle-all", "half-page-down", "exclude"])))
+            elif r < 0.85:
+                steps.append(vis_step(rng))
+            elif r < 0.90:
+                steps.append(("key", rng.choice(["Down", "Up", "BSpace"])))
+            elif r < 0.95:
+                steps.append(("type", rng.choice(list(end))))
+            else:
+                lw2 = rng.randint(20, 60)
+                steps.append(("resize", [lw2 + (3 if border else 0), rng.choice([6, 8, 10, 13]) + (2 if border else 0)]))
+        jobs.append((scfg, items, steps, w, h))
     return jobs
 
 
@@ -406,9 +638,13 @@ def classify(rec, verdict):
     "known <kind>", decided by TLC) gets the signature of that finding; anything else describes the rejection."""
     c = rec["cfg"]
     if verdict.startswith("known "):
-        return {"site": "printInfoImpl", "kind": verdict.split()[1]}
+        kind = verdict.split()[1]
+        return {"site": {"info-tail-not-cleared": "printInfoImpl", "missing-header-lines-not-cleared": "printHeaderImpl",
+                         "rows-not-cleared-after-header-toggle-reverse-list": "printList",
+                         "keep-right-lost-after-exclude": "printHighlighted"}.get(kind, "resizeIfNeeded"), "kind": kind}
     return {"site": "terminal.render", "verdict": verdict.split()[0] if verdict else "", "claims": sorted(verdict.split()[1:]),
-            "layout": c["layout"], "info": c["info"]}
+            "layout": c["layout"], "info": c["info"], "hscroll": c["hscroll"], "keepRight": c["keepRight"], "border": c["border"],
+            "scrollbar": bool(c["scrollbar"]), "sections_toggled": bool(rec.get("vis")), "pattern": bool(rec["st"]["pattern"])}
 
 
 def verdicts(res):
@@ -420,11 +656,20 @@ def verdicts(res):
 
 
 def run(ctx):
-    # (1) the design: placement, claims and truncation on small constants
-    mcs = (["MC_Screen_place_q.cfg", "MC_Screen_q.cfg", "MC_Screen_cut_q.cfg"] if ctx.quick else
-           ["MC_Screen_place.cfg", "MC_Screen.cfg", "MC_Screen_cut.cfg"])
-    for cfgname in mcs:
-        ctx.mc("MC_Screen", cfgname, timeout=2400, workers=6, coverage=True)
+    # (1) the design: placement, claims, truncation, horizontal scrolling on small constants - and, side by side with
+    # it, the export of the E cases (six TLC processes, four workers each)
+    mcs = (["MC_Screen_place_q.cfg", "MC_Screen_q.cfg", "MC_Screen_cut_q.cfg", "MC_Screen_h_q.cfg"] if ctx.quick else
+           ["MC_Screen_place.cfg", "MC_Screen.cfg", "MC_Screen_cut.cfg", "MC_Screen_h.cfg"])
+    families = [] if ctx.replay else sorted(E_FAMILIES)
+    with ThreadPoolExecutor(max_workers=6) as ex:
+        fgen = {name: ex.submit(e_generate, ctx, name) for name in families}
+        results = list(ex.map(lambda cfgname: ctx.tlc("MC_Screen", cfgname, timeout=3000, workers=4, coverage=True), mcs))
+        ecases = {name: fgen[name].result() for name in families}
+    for res in results:                                 # (the bookkeeping of ctx.mc, done in one thread)
+        ctx.cov["states"] += res.distinct
+        ctx.cov["transitions"] += res.generated
+        if res.action_cov:
+            ctx.cov["action_coverage"][res.label] = res.action_cov
     taken = {}
     for label, cov in ctx.cov["action_coverage"].items():
         acts = {a: n for a, n in cov.items() if a.startswith("MC_Screen.A")}
@@ -433,12 +678,11 @@ def run(ctx):
         for a, n in acts.items():
             taken[a] = taken.get(a, 0) + n
     never = sorted(a for a, n in taken.items() if n == 0)
-    if never or len(taken) < 5:
+    if never or len(taken) < 7:
         raise Infra("MC_Screen: steps never taken in any configuration: %s (seen %s)" % (never, sorted(taken)))
-    # (2) real sessions
+    # (2) real sessions: the E families and the J sessions side by side
     fzf = ctx.build_fzf()
-    if not ctx.replay:
-        run_e(ctx, fzf)
+    eplans = {name: e_plan(ctx, name, ecases[name]) for name in families}       # (seeded choices: in this thread, in order)
     jobs = make_jobs(ctx)
     if ctx.replay:
         c = json.load(open(ctx.replay))["case"]["session"]
@@ -454,9 +698,14 @@ def run(ctx):
             stats["skipped"] = stats.get("skipped", 0) + st.get("skipped", 0)
         return recs
     records = []
-    with ThreadPoolExecutor(max_workers=6) as ex:
-        for recs in ex.map(do, range(len(jobs))):
-            records += recs
+    with ThreadPoolExecutor(max_workers=len(families) + 1) as outer:
+        fe = {name: outer.submit(e_sessions, ctx, fzf, name, eplans[name][0], 4) for name in families}
+        with ThreadPoolExecutor(max_workers=6) as ex:
+            for recs in ex.map(do, range(len(jobs))):
+                records += recs
+        eresults = {name: fe[name].result() for name in families}
+    for name in families:
+        e_evaluate(ctx, fzf, name, ecases[name], eplans[name][0], eplans[name][1], eresults[name])
     if not records:
         raise Infra("no screens recorded")
     # (3) TLC judges every recorded screen
@@ -510,6 +759,14 @@ def run(ctx):
     ctx.cov["screens_skipped_still_reading"] = stats.get("skipped", 0)
     ctx.cov["screens_by_layout_info"] = shapes
     ctx.cov["resizes"] = sum(1 for j in jobs for s in j[2] if s[0] == "resize")
+    ctx.cov["screens_after_show_hide"] = sum(1 for r in records if r["vis"])
+    ctx.cov["screens_with_hidden_section"] = sum(1 for r in records if r["maxItems"] > r["h"] - (2 if r["cfg"]["border"] else 0)
+                                                 - (0 if r["cfg"]["inputless"] else 1) - len(r["cfg"]["header"]) - len(r["cfg"]["hlines"]) - 1)
+    ctx.cov["screens_hscroll_with_pattern"] = sum(1 for r in records if r["cfg"]["hscroll"] and r["st"]["pattern"])
+    ctx.cov["rows_cut_on_the_left"] = sum(1 for r in records if r["cfg"]["hscroll"] and r["cfg"]["ellipsis"] for row in r["rows"]
+                                          if "".join(row).lstrip("| >=*+").startswith("".join(r["cfg"]["ellipsis"])))
+    ctx.cov["screens_with_border"] = sum(1 for r in records if r["cfg"]["border"])
+    ctx.cov["screens_with_scrollbar_option"] = sum(1 for r in records if r["cfg"]["scrollbar"])
     ctx.cov["rows_reaching_right_edge"] = sum(1 for r in records for row in r["rows"] if len(row) >= r["w"] - 1)
     ctx.cov["query_longer_than_line"] = sum(1 for r in records if len(r["st"]["input"]) > r["w"] - len(r["cfg"]["prompt"]) - 1)
     ctx.cov["mismatch_verdicts"] = sorted(set(vd.values()))
@@ -519,8 +776,12 @@ def run(ctx):
                         "query": "".join(r["st"]["input"]), "cy": r["st"]["cy"], "offset": r["st"]["offset"], "sel": r["st"]["sel"],
                         "rows": ["".join(x) for x in r["rows"]]})
     ctx.assumptions += [
-        "comparable configuration: --no-color --no-unicode --no-hscroll --no-scrollbar, full screen, no border/margin/preview, "
-        "single-line items without tabs or control characters; colours and attributes are not observed (capture-pane -p)",
+        "comparable configuration: --no-color --no-unicode, full screen, no margin/padding/preview, --border only as the default box, "
+        "single-line items without tabs or control characters; colours and attributes are not observed (capture-pane -p); "
+        "horizontal scrolling, scrollbar and border only in the sessions over long lines and the hscroll E cases",
+        "the exact part shown of a too long line is demanded where the match position does not depend on the matching algorithm "
+        "(plain terms whose characters occur once in the line, ASCII / wide cells); otherwise the row is held to the claims "
+        "(a contiguous part, ellipsis exactly where something was cut, never wider than the room for the text)",
         "character widths: East Asian Wide/Fullwidth = 2 columns, combining marks = 0, everything else 1 (width table in each record)",
         "the screen is judged at settle points only (trace quiet, no redraw pending, two identical captures); the cursor position "
         "is not observed; a query longer than the prompt line is only required to show a part around the cursor",
